@@ -276,3 +276,20 @@ def run(ck, prog, ctx):
     ck.rule("KSIB", "in a group of >= 3 kind variants of one operation, no member alone has an extra selecting / truncating / error-swallowing / text-changing step or calls a crate function no sibling calls")
     from engines import check_kind_siblings
     check_kind_siblings(ck, "KSIB", prog, r"^src/ontology/comparison\.rs$", floor=1)
+    # ---------------------------------------------------------------- the entry point: `old.compare(&new)` makes self the OLD side
+    oc = prog.body("ontology::Ontology::compare")
+    if oc is not None:
+        news = [(bi, t) for bi, t in oc.calls() if (t.callee.res or "").endswith("Comparison::<'a>::new") and len(t.args) == 2]
+        if len(news) != 1:
+            ck.undecided("ROLE", "compare/args", "Ontology::compare does not call Comparison::new directly", where=oc.where())
+        else:
+            bi, t = news[0]
+            a0, a1 = params_of(pvn.of_operand(oc, t.args[0]), oc.id), params_of(pvn.of_operand(oc, t.args[1]), oc.id)
+            ck.ob("ROLE", "compare/args", a0 == {1} and a1 == {2}, "Ontology::compare builds Comparison::new(%s, %s) (expected (self, other): self is the old ontology, `added_*` are the items only in `other`)" % (
+                "self" if a0 == {1} else "other", "other" if a1 == {2} else "self"), where=oc.where(t.line))
+    cn = prog.body("ontology::comparison::Comparison::<'a>::new")
+    if cn is not None:
+        for pos, st in cn.stmts():
+            if st.k == "assign" and st.rv["k"] == "agg" and st.rv.get("adt", "").endswith("Comparison"):
+                m = {f: params_of(pvn.of_operand(cn, o), cn.id) for f, o in zip(st.rv["fields"], st.rv["ops"])}
+                ck.ob("ROLE", "compare/new-fields", m.get("lhs") == {1} and m.get("rhs") == {2}, "Comparison::new stores its first argument as lhs (old) and its second as rhs (new): %s" % {k: sorted(v) for k, v in m.items()}, where=cn.where(st.line))
